@@ -23,6 +23,11 @@ structure IterOk (it : Iter) (d : Db) : Prop where
     (∃ x ∈ it.rows, x.rowNum ≤ v.rowNum) → v ∈ it.rows
   /-- no packet lies between the current one and the pending ones -/
   above : 0 < it.prev → ∀ r ∈ d.loopRows it.cid it.loopNum, it.prev < (r : Int) → ∃ x ∈ it.rows, x.rowNum = r
+  /-- the pending rows have distinct keys (item_value's primary key) and `finished` says whether any is left -/
+  keys : it.rows.Pairwise ValueKeyNe
+  fin : it.finished = it.rows.isEmpty
+  /-- the iterated loop exists -/
+  loop : ∃ x ∈ d.loops, x.cid = it.cid ∧ x.loopNum = it.loopNum
 
 theorem IterOk.attached {it : Iter} {d : Db} (h : IterOk it d) : 0 < it.prev → it.Attached d := fun hp => ⟨h.cur hp, h.names⟩
 
@@ -119,7 +124,7 @@ theorem getPackets_iterOk (s s2 : Store) (l : LH) (it : Iter) (hv : l.Valid s.db
         refine ⟨hdb2, ?_⟩
         subst hit
         simp only [] at hn hc hln ⊢
-        refine ⟨?_, ?_, ?_, ?_, ?_, ?_, ?_, ?_, ?_⟩
+        refine ⟨?_, ?_, ?_, ?_, ?_, ?_, ?_, ?_, ?_, ?_, ?_, ?_⟩
         · intro k hk
           simp only [] at hk ⊢
           have hk' : k ∈ names.map (·.1) := by simpa using hk
@@ -158,6 +163,18 @@ theorem getPackets_iterOk (s s2 : Store) (l : LH) (it : Iter) (hv : l.Valid s.db
           rw [hdb2]
           exact mem_foldr_insertByRow_of_mem _ v (List.mem_filter.mpr ⟨hv, by simp [hvc, hva]⟩)
         · intro hp; simp at hp
+        · simp only []
+          rw [hdb2]
+          have hsym : ∀ a b : ValueRow, ValueKeyNe a b → ValueKeyNe b a := fun a b hab ⟨h1, h2, h3⟩ => hab ⟨h1.symm, h2.symm, h3.symm⟩
+          exact (sortByRow_spec hsym _ (hpk.valuePK.filter _)).1
+        · simp only []
+          rename_i hrows
+          cases hr : s2'.db.loopValues l.cid l.loopNum with
+          | nil => exact absurd hr hrows
+          | cons a b => rfl
+        · simp only []
+          obtain ⟨y, hy, k1, k2, _⟩ := hv
+          exact ⟨y, hy, k1, k2⟩
 
 /-- cif_pktitr_next_packet -/
 theorem nextPacket_iterOk (s : Store) (it : Iter) (d : Db) (h : IterOk it d) : IterOk (nextPacket s it).1 d := by
@@ -180,7 +197,7 @@ theorem nextPacket_iterOk (s : Store) (it : Iter) (d : Db) (h : IterOk it d) : I
         · exact Nat.le_refl _
         · exact (List.pairwise_cons.mp hsorted).1 x hx
       have hrm : r ∈ it.rows := by rw [hrows]; exact List.mem_cons_self
-      refine ⟨h.names, h.scalar, ?_, ?_, ?_, h.namesEq, ?_, ?_, ?_⟩
+      refine ⟨h.names, h.scalar, ?_, ?_, ?_, h.namesEq, ?_, ?_, ?_, h.keys.sublist (List.dropWhile_sublist _), rfl, h.loop⟩
       · intro _
         show (r.rowNum : Int).toNat ∈ _
         simp only [Int.toNat_natCast]
@@ -265,7 +282,7 @@ theorem IterOk.replaceValue {it : Iter} {d d' : Db} (h : IterOk it d) (hp : 0 < 
   have hv : d'.values = d.values.filter (fun w => !(w.cid == it.cid && w.name == k && w.rowNum == it.prev.toNat)) ++
       [{ cid := it.cid, name := k, rowNum := it.prev.toNat, val := v }] := by cases he; rfl
   have hcur := h.cur hp
-  refine ⟨?_, ?_, fun _ => hrows _ _ _ hcur, fun r hr => ⟨hrows _ _ _ (h.future r hr).1, (h.future r hr).2⟩, h.sorted, ?_, ?_, ?_, ?_⟩
+  refine ⟨?_, ?_, fun _ => hrows _ _ _ hcur, fun r hr => ⟨hrows _ _ _ (h.future r hr).1, (h.future r hr).2⟩, h.sorted, ?_, ?_, ?_, ?_, h.keys, h.fin, by rw [hl]; exact h.loop⟩
   · intro k' hk'; rw [hli]; exact h.names k' hk'
   · intro x hx; rw [hl] at hx; exact h.scalar x hx
   · rw [hli]; exact h.namesEq
@@ -344,8 +361,9 @@ theorem removePacket_iterOk (s : Store) (it : Iter) (hinv : Inv s.db) (h : IterO
   -- the database afterwards: same keys and categories, same items, every other row of the loop
   have key : ∀ d2 : Db, (∀ x ∈ d2.loops, ∃ y ∈ s.db.loops, x.cid = y.cid ∧ x.loopNum = y.loopNum ∧ x.category = y.category) →
       d2.items = s.db.items → d2.values = (s.db.removePacket it.cid it.loopNum it.prev.toNat).values →
+      (∃ x ∈ d2.loops, x.cid = it.cid ∧ x.loopNum = it.loopNum) →
       IterOk { it with prev := -1 } d2 := by
-    intro d2 hl hi hv
+    intro d2 hl hi hv hlk
     have hli : d2.loopItems it.cid it.loopNum = s.db.loopItems it.cid it.loopNum := by simp only [Db.loopItems, hi]
     have hkeep : ∀ w ∈ s.db.values, w.rowNum ≠ it.prev.toNat → w ∈ d2.values := by
       intro w hw hne
@@ -359,7 +377,7 @@ theorem removePacket_iterOk (s : Store) (it : Iter) (hinv : Inv s.db) (h : IterO
       rw [hv] at hw
       have hw' : w ∈ s.db.values.filter (fun v => !(v.cid == it.cid && v.rowNum == it.prev.toNat && (s.db.loopItems it.cid it.loopNum).any (fun i => i.name == v.name))) := hw
       exact (List.mem_filter.mp hw').1
-    refine ⟨?_, ?_, ?_, ?_, h.sorted, ?_, ?_, ?_, ?_⟩
+    refine ⟨?_, ?_, ?_, ?_, h.sorted, ?_, ?_, ?_, ?_, h.keys, h.fin, hlk⟩
     · intro k hk; show (d2.loopItems it.cid it.loopNum).any _ = true; rw [hli]; exact h.names k hk
     · intro x hx e1 e2
       obtain ⟨y, hy, k1, k2, k3⟩ := hl x hx
@@ -400,9 +418,12 @@ theorem removePacket_iterOk (s : Store) (it : Iter) (hinv : Inv s.db) (h : IterO
       split <;> exact ⟨rfl, rfl, rfl⟩
     · rfl
     · rfl
+    · obtain ⟨y, hy, k1, k2⟩ := h.loop
+      refine ⟨_, List.mem_map.mpr ⟨y, hy, rfl⟩, ?_, ?_⟩ <;> split <;> assumption
   · apply key
     · intro x hx; exact ⟨x, hx, rfl, rfl, rfl⟩
     · rfl
     · rfl
+    · exact h.loop
 
 end CifModel.Store
